@@ -497,6 +497,7 @@ impl Iterator for Lexer {
                     };
 
                     // Ensure that the next character is the closing quote
+                    let char_end = self.get_pos();
                     self.consume_char();
                     if let Some(eq) = self.current() {
                         // Return the character
@@ -512,16 +513,13 @@ impl Iterator for Lexer {
                             )));
                         }
 
-                        // The character is unclosed
-                        let end = match eq {
-                            '\n' => self.literal_end(self.get_pos()),
-                            _ => self.get_pos(),
-                        };
+                        // The character is unclosed: the literal ends with
+                        // it, whatever follows (a blank, a comma, the line end)
                         return Some(self.invalid_string(
                             c.to_string(),
                             StringLexErrorType::Unclosed,
                             start,
-                            end,
+                            char_end,
                         ));
                     }
                 }
